@@ -52,8 +52,8 @@ func racDir() string {
 // supportHarness: bounded harnesses run in support of a property whose own deciding obligations are
 // per-function contracts: the optimizer and the compiler sit between those contracts and what a script
 // observes, and are themselves only covered by the bounded checks.
-var supportHarness = map[string][]string{"C01": {"C02", "C03", "C14", "C12"}, "C04": {"C04"}, "C05": {"C02", "C03"}, "C06": {"C06"}, "C07": {"C04", "C06"}, "C09": {"C08"}, "C11": {"C08"}, "C15": {"C03"}, "C16": {"C16", "C03"},
-	"C08": {"C08", "C13"}, "C13": {"C13", "C08"}, "C12": {"C12", "C13", "C03"}, "C14": {"C14"}, "C17": {"C17", "C14"}, "C19": {"C04"}, "C20": {"C20"}}
+var supportHarness = map[string][]string{"C01": {"C02", "C03", "C14", "C12", "C17"}, "C04": {"C04"}, "C05": {"C02", "C03", "C12"}, "C06": {"C06"}, "C07": {"C04", "C06", "C17"}, "C09": {"C08", "C17"}, "C11": {"C08"}, "C15": {"C03"},
+	"C16": {"C16", "C03"}, "C08": {"C08", "C13"}, "C13": {"C13", "C08"}, "C12": {"C12", "C13", "C03"}, "C14": {"C14"}, "C17": {"C17", "C14"}, "C19": {"C04"}, "C20": {"C20"}}
 
 func runBounded(id, tier string, seed int, findings []*finding, res *propResult) (violLines, knownLines, notes []string) {
 	return runHarness(id, id, tier, seed, findings, res)
